@@ -318,7 +318,10 @@ fn gen_case(r: &mut Rng, seed: u64, idx: u64) -> Case {
                 17 | 18 => {
                     if ients.is_empty() { continue; }
                     let fi: Vec<u64> = ients.iter().enumerate().filter(|(_, (kind, _))| *kind == 0).map(|(k, _)| k as u64).collect();
-                    let k = if !fi.is_empty() && r.chance(3, 4) { *r.pick(&fi) } else if r.chance(1, 25) { ients.len() as u64 + r.below(2) } else { r.below(ients.len() as u64) };
+                    // names given to imported GLOBALS reach the name section too (keyed by the global's NEW index): pick them as
+                    // often as function imports
+                    let gi: Vec<u64> = ients.iter().enumerate().filter(|(_, (kind, _))| *kind == 1).map(|(k, _)| k as u64).collect();
+                    let k = if !gi.is_empty() && r.chance(2, 5) { *r.pick(&gi) } else if !fi.is_empty() && r.chance(3, 4) { *r.pick(&fi) } else if r.chance(1, 25) { ients.len() as u64 + r.below(2) } else { r.below(ients.len() as u64) };
                     tok += 1; NOp::ImpSetName(k, tok)
                 }
                 _ => { if r.chance(1, 4) { NOp::Edit(Ed::AddImport(2, nfp(&mut fpc)), None) } else { NOp::Edit(Ed::AddImport(0, nfp(&mut fpc)), None) } }
